@@ -91,7 +91,8 @@ class ScanModel(LinModel):
             raise Ret(Sym('EMITTED'))
         h = it.prog.funcs.get(callee['id']) if callee.get('repo') else None
         if h is not None and h.body is not None and h.relfile.startswith('src/csv/') and depth < it.max_depth \
-                and (not h.cls or h.cls == NS + self.cls) and len(list(h.walk())) < 300 and name not in ('ReadChunk', 'IsEnd'):
+                and (not h.cls or h.cls == NS + self.cls or h.sym.get('kind') == 'lambda' or '(anonymous class)' in (h.q or '')) \
+                and len(list(h.walk())) < 300 and name not in ('ReadChunk', 'IsEnd'):
             return NotImplemented       # small helpers extracted from the scanner (free functions or private members)
         for a in args:
             it.ev(fr, a, depth)
